@@ -41,7 +41,10 @@ def gen_ast(rng):
             ins = [src]
             if rng.random() < 0.4:
                 ins.append("%g")
-            ops.append({"k": "gen", "ins": ins, "dst": dst, "tag": t()})
+            op = {"k": "gen", "ins": ins, "dst": dst, "tag": t()}
+            if rng.random() < 0.3:
+                op["scalar"] = "%off"  # the kernel also takes the index-dependent offset as a scalar operand
+            ops.append(op)
         r = rng.random()
         if r < 0.2 and (s > 0 or odd):
             ops.append({"k": "copy", "src": "%sa", "dst": "%so2", "tag": t()})  # index-dependent read-only -> write-only
@@ -59,18 +62,24 @@ def gen_ast(rng):
         stages[k].append({"k": "copy", "src": "%g", "dst": "%u0", "tag": t()})
         stages[k + 2].append({"k": "gen", "ins": ["%u0"], "dst": "%so2", "tag": t()})
         skip = k
-    return {"nst": nst, "tmps": ntmp, "skip": skip is not None, "const_bounds": rng.random() < 0.75, "stages": stages}
+    tail = None
+    if rng.random() < 0.12:
+        tail = {"tag": t(), "arg": rng.choice(["%off", "%i"])}  # an op behind the last barrier: not the recognised shape
+    return {"nst": nst, "tmps": ntmp, "skip": skip is not None, "tail": tail, "const_bounds": rng.random() < 0.75, "stages": stages}
 
 
 def op_text(o):
     if o["k"] == "copy":
         return f'"memref.copy"({o["src"]}, {o["dst"]}) {{vtag = {o["tag"]} : i64}} : ({btype(o["src"])}, {btype(o["dst"])}) -> ()'
     n = len(o["ins"])
-    maps = ", ".join(["affine_map<(d0) -> (d0)>"] * (n + 1))
-    args = ", ".join(f"%x{j} : i32" for j in range(n + 1))
+    sc = o.get("scalar")
+    maps = ", ".join(["affine_map<(d0) -> (d0)>"] * n + (["affine_map<(d0) -> ()>"] if sc else []) + ["affine_map<(d0) -> (d0)>"])
+    args = ", ".join([f"%x{j} : i32" for j in range(n)] + (["%xs : index"] if sc else []) + [f"%x{n} : i32"])
+    ins = list(o["ins"]) + ([sc] if sc else [])
+    tys = [btype(b) for b in o["ins"]] + (["index"] if sc else [])
     return (
         f'linalg.generic {{indexing_maps = [{maps}], iterator_types = ["parallel"], doc = "k{o["tag"]}"}} '
-        f'ins({", ".join(o["ins"])} : {", ".join(btype(b) for b in o["ins"])}) outs({o["dst"]} : {btype(o["dst"])}) {{\n^bb0({args}):\n  linalg.yield %x0 : i32\n}}'
+        f'ins({", ".join(ins)} : {", ".join(tys)}) outs({o["dst"]} : {btype(o["dst"])}) {{\n^bb0({args}):\n  linalg.yield %x0 : i32\n}}'
     )
 
 
@@ -104,6 +113,8 @@ def emit(ast, env=None) -> str:
         for o in ops:
             e("      " + op_text(o))
         e('      "snax.cluster_sync_op"() : () -> ()')
+    if ast.get("tail"):
+        e(f'      "test.op"({ast["tail"]["arg"]}) {{vtag = {ast["tail"]["tag"]} : i64}} : (index) -> ()')
     e("    }")
     e("    func.return")
     e("  }")
@@ -132,6 +143,14 @@ def trips_of(env):
 
 
 def shrink_ast(ast):
+    if ast.get("tail"):
+        yield dict(ast, tail=None)
+    for s_, ops_ in enumerate(ast["stages"]):
+        for j_, o_ in enumerate(ops_):
+            if o_.get("scalar"):
+                ns_ = [list(x) for x in ast["stages"]]
+                ns_[s_][j_] = {k_: v_ for k_, v_ in o_.items() if k_ != "scalar"}
+                yield dict(ast, stages=ns_)
     for s, ops in enumerate(ast["stages"]):
         if len(ops) > 1:
             for j in range(1, len(ops)):
